@@ -244,7 +244,7 @@ func init() { Registry["C19"] = runC19 }
 
 func runC19(ctx Ctx) int {
 	run := ev.NewRun("C19")
-	run.Rule = "A: full product of issuer strings = scheme(10) x separator(5) x userinfo(4) x host(10) x port(5) x path(7) x query(8) x fragment(4) x insecure(2) against the real StaticIssuer factory (and NewProvider for every accepted string), judged by the RFC 3986 appendix-B component regex; A2: every string with <= 1 component off the canonical issuer x 6 prefixes x 9 suffixes of blanks / TAB / LF / CRLF / NBSP / EM SPACE / NUL / VT; B2: every sequence of <= 3 requests over 4 forwarding-header placements on one provider (3 issuer modes); B: full product of configured path(10, incl. percent-escapes, //-prefixed and scheme-like paths) x insecure(2) x request Host(3) x 15 Forwarded header shapes x 3 issuer modes x header placement(3) x request path(2) x X-Forwarded-Proto(2), plus 1 296 cases observed after another tenant's metadata request while the signing-key lookup fails (4 kinds), observed on IssuerFromRequest and on the entityID of the served metadata, judged with an own RFC 7239 reading"
+	run.Rule = "A: full product of issuer strings = scheme(10) x separator(5) x userinfo(4) x host(10) x port(5) x path(7) x query(8) x fragment(4) x insecure(2) against the real StaticIssuer factory (and NewProvider for every accepted string), judged by the RFC 3986 appendix-B component regex; A2: every string with <= 1 component off the canonical issuer x 6 prefixes x 9 suffixes of blanks / TAB / LF / CRLF / NBSP / EM SPACE / NUL / VT; B2: every sequence of <= 3 requests over 4 forwarding-header placements on one provider (3 issuer modes); B3: every ordered pair of 8 issuer-factory configurations (Host only, Forwarded, custom lists of 0-3 headers) alive in one process x 8 header subsets; B: full product of configured path(10, incl. percent-escapes, //-prefixed and scheme-like paths) x insecure(2) x request Host(3) x 15 Forwarded header shapes x 3 issuer modes x header placement(3) x request path(2) x X-Forwarded-Proto(2), plus 1 296 cases observed after another tenant's metadata request while the signing-key lookup fails (4 kinds), observed on IssuerFromRequest and on the entityID of the served metadata, judged with an own RFC 7239 reading"
 	run.Assume = []string{"a bare '?' or '#' with nothing after it is not counted as query / fragment", "for syntactically malformed Forwarded values either host choice is accepted; the structure (scheme and path never from the request) is always enforced"}
 	if ctx.Replay != "" {
 		var rp c19Replay
@@ -465,6 +465,87 @@ func runC19(ctx Ctx) int {
 		}
 		run.Outcome("derive-history:ok")
 	})
+	// B3: several issuer configurations alive in ONE process: every ordered pair of 8 factory configurations (host; Forwarded;
+	// custom lists of 0, 1, 1 (Forwarded itself), 2, 2 reversed and 3 headers) is constructed, then each derives the issuer of 8
+	// requests (every subset of three forwarding headers present): what one configuration consults must not depend on the
+	// other one having been constructed before or after it
+	{
+		type fcfg struct {
+			name    string
+			headers []string // consulted in this order ("" list: Host only)
+			mk      func() func(bool) (provider.IssuerFromRequest, error)
+		}
+		cfgs := []fcfg{
+			{"host", nil, func() func(bool) (provider.IssuerFromRequest, error) { return provider.IssuerFromHost("/saml") }},
+			{"forwarded", []string{"Forwarded"}, func() func(bool) (provider.IssuerFromRequest, error) { return provider.IssuerFromForwardedOrHost("/saml") }},
+			{"custom()", nil, func() func(bool) (provider.IssuerFromRequest, error) {
+				return provider.IssuerFromForwardedOrHost("/saml", provider.WithIssuerFromCustomHeaders())
+			}},
+			{"custom(x-one)", []string{"X-One"}, func() func(bool) (provider.IssuerFromRequest, error) {
+				return provider.IssuerFromForwardedOrHost("/saml", provider.WithIssuerFromCustomHeaders("x-one"))
+			}},
+			{"custom(forwarded)", []string{"Forwarded"}, func() func(bool) (provider.IssuerFromRequest, error) {
+				return provider.IssuerFromForwardedOrHost("/saml", provider.WithIssuerFromCustomHeaders("forwarded"))
+			}},
+			{"custom(forwarded,x-one)", []string{"Forwarded", "X-One"}, func() func(bool) (provider.IssuerFromRequest, error) {
+				return provider.IssuerFromForwardedOrHost("/saml", provider.WithIssuerFromCustomHeaders("forwarded", "x-one"))
+			}},
+			{"custom(x-two,forwarded)", []string{"X-Two", "Forwarded"}, func() func(bool) (provider.IssuerFromRequest, error) {
+				return provider.IssuerFromForwardedOrHost("/saml", provider.WithIssuerFromCustomHeaders("x-two", "forwarded"))
+			}},
+			{"custom(x-one,x-two,forwarded)", []string{"X-One", "X-Two", "Forwarded"}, func() func(bool) (provider.IssuerFromRequest, error) {
+				return provider.IssuerFromForwardedOrHost("/saml", provider.WithIssuerFromCustomHeaders("x-one", "x-two", "forwarded"))
+			}},
+		}
+		hostOf := map[string]string{"Forwarded": "fwd-f.example", "X-One": "fwd-1.example", "X-Two": "fwd-2.example"}
+		names := []string{"Forwarded", "X-One", "X-Two"}
+		for i := range cfgs {
+			for j := range cfgs {
+				pair := []fcfg{cfgs[i], cfgs[j]}
+				var fns []provider.IssuerFromRequest
+				for _, c := range pair {
+					fn, err := c.mk()(false)
+					if err != nil {
+						run.HarnessError("B3: " + err.Error())
+						continue
+					}
+					fns = append(fns, fn)
+				}
+				if len(fns) != 2 {
+					continue
+				}
+				for mask := 0; mask < 8; mask++ {
+					r := httptest.NewRequest("GET", "https://req-host.example/x", nil)
+					r.Host = "req-host.example"
+					for b, n := range names {
+						if mask&(1<<b) != 0 {
+							r.Header.Set(n, "host="+hostOf[n])
+						}
+					}
+					for k, c := range pair {
+						want := "req-host.example"
+						for _, h := range c.headers {
+							if r.Header.Get(h) != "" {
+								want = hostOf[h]
+								break
+							}
+						}
+						got := fns[k](r)
+						run.Evaluations.Add(1)
+						run.AddStates(1)
+						if got != "https://"+want+"/saml" {
+							run.Outcome("two-configurations:differs")
+							run.Violate("derived-issuer-depends-on-another-issuer-configuration-in-the-process", "issuerFromForwardedOrHost",
+								[]string{"configuration=" + c.name, "other-configuration=" + pair[1-k].name, fmt.Sprintf("constructed-%s", []string{"first", "second"}[k])},
+								map[string]any{"got": got, "want": "https://" + want + "/saml", "headers-present-mask(Forwarded,X-One,X-Two)": mask}, nil)
+						} else {
+							run.Outcome("two-configurations:ok")
+						}
+					}
+				}
+			}
+		}
+	}
 	// B: derivation
 	var dcases []c19DCase
 	for _, path := range []string{"", "/p", "p", "/a/b/", "/t%2Fx/saml", "/my%20idp", "//saml/v2", "idp:saml", "/q?x=1", "/f#frag"} {
